@@ -597,19 +597,25 @@ fn deftype_sensitive_programs() -> Vec<String> {
             }
         }
     }
-    // a DEFtype statement BETWEEN subprogram definitions: the parameters, function names and variables written before
-    // it keep the default type they had there; what follows it has the new one
-    for (kw, lit, op) in [("DEFINT", "7", "+ 1"), ("DEFLNG", "70000", "+ 1"), ("DEFDBL", "2.5#", "* 2"), ("DEFSTR", "\"ab\"", "+ \"!\""), ("DEFSNG", "1.5", "* 2")] {
+    out.extend(deftype_between_programs().into_iter().map(|(t, _)| t));
+    out
+}
+
+/// A DEFtype statement BETWEEN subprogram definitions: the parameters, function names and variables written before
+/// it keep the default type they had there; what follows it has the new one. (program, expected output)
+fn deftype_between_programs() -> Vec<(String, String)> {
+    let mut out = vec![];
+    for (kw, lit, op, shown) in [("DEFINT", "7", "+ 1", " 8 "), ("DEFLNG", "70000", "+ 1", " 70001 "), ("DEFDBL", "2.5#", "* 2", " 5 "), ("DEFSTR", "\"ab\"", "+ \"!\"", "ab!"), ("DEFSNG", "1.5", "* 2", " 3 ")] {
         for (lo, hi) in [('A', 'Z'), ('M', 'P'), ('T', 'T')] {
             let mid = ((lo as u8 + hi as u8) / 2) as char;
             for first in [lo, mid, hi] {
                 let f = first.to_ascii_lowercase();
                 let head = if kw == "DEFSNG" { "DEFDBL A-Z\n" } else { "" };
                 let range = if lo == hi { format!("{}", lo) } else { format!("{}-{}", lo, hi) };
-                out.push(format!(
-                    "{head}DECLARE SUB Show ({f}val)\nDECLARE FUNCTION {f}wice ({f}val)\n{f}mount = 2.5\nPRINT \"start\"\nShow {f}mount\nShow 7\nPRINT {f}wice(3); {f}wice({f}mount)\nPRINT Later(1)\nPRINT \"done\"\nEND\nSUB Show ({f}val)\n  PRINT \"value\"; {f}val * 2\nEND SUB\nFUNCTION {f}wice ({f}val)\n  {f}wice = {f}val * 2\nEND FUNCTION\n{kw} {range}\nFUNCTION Later (n%)\n  {f}local = {lit}\n  {f}local = {f}local {op}\n  PRINT {f}local\n  Later = n%\nEND FUNCTION\n",
+                out.push((format!(
+                    "{head}DECLARE SUB Show ({f}val)\nDECLARE FUNCTION {f}wice ({f}val)\n{f}mount = 2.5\nPRINT \"start\"\nShow {f}mount\nShow 7\nPRINT {f}wice(3); {f}wice({f}mount)\nPRINT Later%(1)\nPRINT \"done\"\nEND\nSUB Show ({f}val)\n  PRINT \"value\"; {f}val * 2\nEND SUB\nFUNCTION {f}wice ({f}val)\n  {f}wice = {f}val * 2\nEND FUNCTION\n{kw} {range}\nFUNCTION Later% (n%)\n  {f}local = {lit}\n  {f}local = {f}local {op}\n  PRINT {f}local\n  Later% = n%\nEND FUNCTION\n",
                     head = head, f = f, kw = kw, range = range, lit = lit, op = op
-                ));
+                ), format!("start\r\nvalue 5 \r\nvalue 14 \r\n 6  5 \r\n{}\r\n 1 \r\ndone\r\n", shown)));
             }
         }
     }
@@ -737,6 +743,17 @@ pub fn worker(case: &Value) -> Value {
                 }
                 n += 1;
                 typed_case(ctx, text, *kind, &mut acc, json!({"g": g, "nops": genr.nops, "lo": idx, "hi": idx + 1}));
+            }
+        }
+        "deftype-between" => {
+            for (text, want) in deftype_between_programs() {
+                n += 1;
+                let o = run_pipeline(&text, &RunOpts { budget: 200_000, ..RunOpts::default() });
+                if matches!(o.end, End::Normal) && o.stdout_str() == want {
+                    acc.hit("accepted-and-ran-as-written");
+                } else {
+                    acc.bad(format!("C12|deftype-between|{}", o.end.class()), format!("a DEFtype statement between subprogram definitions changed what stands before it: expected {:?} and a normal end, got {:?} and {}", want, o.stdout_str(), o.end.class()), text, json!({"g": g}));
+                }
             }
         }
         "call-pairs" => {
@@ -872,6 +889,7 @@ pub fn drive(tier: &str) -> i32 {
         lo += 120;
     }
     cases.push(json!({"g": "call-pairs"}));
+    cases.push(json!({"g": "deftype-between"}));
     let total_cases = cases.len();
     let cap = run.wall_cap_s;
     let t0 = run.reporter.start;
